@@ -217,6 +217,17 @@ func (a concApp) ToApp(m *quickfix.Message, _ quickfix.SessionID) error {
 	return nil
 }
 
+// ToAdmin: a SequenceReset is the gap fill of a replay.  The application takes its time over it (yields, a short
+// sleep): whatever the engine holds while it calls back stays held, whatever it does not hold is open to the senders.
+func (a concApp) ToAdmin(m *quickfix.Message, _ quickfix.SessionID) {
+	if t, err := m.Header.GetString(quickfix.Tag(35)); err == nil && t == "4" {
+		for i := 0; i < 20; i++ {
+			runtime.Gosched()
+		}
+		time.Sleep(200 * time.Microsecond)
+	}
+}
+
 // ---------------------------------------------------------------- session pool
 
 type concSess struct {
